@@ -214,7 +214,11 @@ Definition submit (k : kind) : op := OSend (funnel_chan (funnel_of k)) (kind_cod
           mode;                       0 plain | 1 the service actor is crashed and restarted first
                                       | 2 the same props is spawned twice (two actors, one run service)
           ovLocal; ovGlobal; ovPost; ovTimer; ovSessMsg; ovRequest;
-          edgeRounds]                 rounds of boundary work: timers that are already due (delay 0,
+          edgeRounds;                 (see below)
+          siblings]                   that many MORE actors are spawned from the same props (they share
+                                      dispatcher and run service; see "many actors on one dispatcher");
+                                      the counts do not depend on it
+   edgeRounds:                        rounds of boundary work: timers that are already due (delay 0,
                                       negative), 1ns, repeating; work produced from INSIDE a posted
                                       closure / timer callback / listener / request handler of the
                                       service itself.  Per round: 1 request, 18 timer callbacks,
@@ -486,3 +490,90 @@ Definition init_i (consumers : nat) : ist := mkI init (repeat PTop consumers).
 
 Definition is_running (p : pc) : bool := match p with PRun _ _ _ _ => true | _ => false end.
 Definition running (x : ist) : nat := length (filter is_running (pcs x)).
+
+(* ---- many actors on one dispatcher ----
+   Every actor spawned from one NewServicePropsWithNewScheDisp props shares the scheDisp and
+   the run service.  Each has its own protoactor mailbox (actorex/mailbox); a mailbox hands
+   its batch (processMessages) to the dispatcher at most once at a time:
+     PostUserMessage: push; if the status is idle, CAS idle->running and Schedule(batch)
+     scheDisp.Schedule: chanTask <- batch           blocking send, capacity 9
+     the batch runs as ONE task of the selector (channel 1), handles what is queued, sets idle
+   The layer below keeps the mailboxes next to the interleaving model [ist]; the batch token
+   on channel 1 is the actor's number.  (The window in which processMessages re-schedules
+   itself is the mailbox model of property C09 and is not repeated here: the batch end is
+   atomic.) *)
+Inductive mstat :=
+| MIdle
+| MWant        (* CAS won; the poster is inside Schedule (blocked while the queue is full) *)
+| MQueued      (* the batch token is in chanTask *)
+| MRunning.    (* the batch is the task the consumer is running *)
+
+Record mbox := mkBox { bq : list Z; bst : mstat }.
+Record dst := mkD { di : ist; boxes : list mbox; dlog : list (Z * Z) }.   (* dlog: handled (actor, message) *)
+
+Definition disp_chan : Z := 1.   (* funnel_chan FDisp: scheDisp.chanTask, capacity 9 *)
+
+Inductive dact :=
+| DPost (a m : Z)     (* any goroutine: PostUserMessage(m) on the mailbox of actor a *)
+| DSched (a : Z)      (* that goroutine's Schedule call completes - not enabled while chanTask is full *)
+| DCons (i : nat)     (* the consumer's next atomic step (case i at Select) *)
+| DOther (o : op).    (* any other producer action on the service's channels *)
+
+Definition dstep (y : dst) (a : dact) : dst :=
+  match a with
+  | DPost a m =>
+      match znth (boxes y) a with
+      | Some b =>
+          mkD (di y)
+              (zupd (boxes y) a (mkBox (bq b ++ [m]) (match bst b with MIdle => MWant | st => st end)))
+              (dlog y)
+      | None => y
+      end
+  | DSched a =>
+      match znth (boxes y) a with
+      | Some b =>
+          match bst b with
+          | MWant =>
+              match plain_step (sh (di y)) (OSend disp_chan a) with
+              | (s1, ESent true) =>
+                  mkD (mkI s1 (pcs (di y))) (zupd (boxes y) a (mkBox (bq b) MQueued)) (dlog y)
+              | _ => y                     (* queue full: the caller stays blocked in Schedule *)
+              end
+          | _ => y
+          end
+      | None => y
+      end
+  | DCons i =>
+      let x1 := istep (di y) (ACons 0 i) in
+      match nth_error (pcs (di y)) 0, nth_error (pcs x1) 0 with
+      | Some (PSel _), Some (PRun _ c v true) =>
+          match (if Z.eqb c disp_chan then znth (boxes y) v else None) with
+          | Some b => mkD x1 (zupd (boxes y) v (mkBox (bq b) MRunning)) (dlog y)
+          | None => mkD x1 (boxes y) (dlog y)
+          end
+      | Some (PRun _ c v true), Some PTop =>
+          match (if Z.eqb c disp_chan then znth (boxes y) v else None) with
+          | Some b => mkD x1 (zupd (boxes y) v (mkBox [] MIdle)) (dlog y ++ map (pair v) (bq b))
+          | None => mkD x1 (boxes y) (dlog y)
+          end
+      | _, _ => mkD x1 (boxes y) (dlog y)
+      end
+  | DOther o =>
+      match o with
+      | OSend c _ | OClose c =>
+          if Z.eqb c disp_chan then y     (* chanTask is private to the dispatcher *)
+          else mkD (istep (di y) (AProd o)) (boxes y) (dlog y)
+      | _ => mkD (istep (di y) (AProd o)) (boxes y) (dlog y)
+      end
+  end.
+
+Definition drun (y : dst) (l : list dact) : dst := fold_left dstep l y.
+
+(* a service (service_ops) with n actors spawned from its props, all mailboxes idle *)
+Definition dinit (n : nat) : dst :=
+  mkD (mkI (fst (plain_from init service_ops)) [PTop]) (repeat (mkBox [] MIdle) n) [].
+
+Definition count_stat (st : mstat) (y : dst) : nat :=
+  length (filter (fun b => match bst b, st with
+                           | MIdle, MIdle | MWant, MWant | MQueued, MQueued | MRunning, MRunning => true
+                           | _, _ => false end) (boxes y)).
